@@ -135,7 +135,7 @@ def run(ck, w):
             ck.ok(o, "monitor.error + stats.errors += 1", sites=[ce[0].site()])
     o = ck.ob("C04.3b", "the error count incremented in backup() is part of the returned stats")
     okr = False
-    for bb, j, s in rules.agg_sites(bk, "std::result::Result", "Ok"):
+    for bb, j, s in [x for x in rules.agg_sites(bk, "std::result::Result", "Ok") if x[2]["pl"]["l"] == 0]:
         orig = flow.origins_x(lib, bk, s["rv"]["ops"][0])
         okr = True
     # stats local: the one whose .errors is incremented must be the one returned
@@ -145,7 +145,7 @@ def run(ck, w):
         if p and p[-1].startswith("f:") and p[-1].split(":", 2)[2] == "errors":
             inc_locals.add(s["pl"]["l"])
     ret_locals = set()
-    for bb, j, s in rules.agg_sites(bk, "std::result::Result", "Ok"):
+    for bb, j, s in [x for x in rules.agg_sites(bk, "std::result::Result", "Ok") if x[2]["pl"]["l"] == 0]:
         l = flow.operand_local(s["rv"]["ops"][0])
         if l is not None:
             ret_locals |= flow.result_carriers(bk, l) | {l}
